@@ -51,7 +51,8 @@ func (p *Prog) predicateView(i *ssa.If) (*ssa.If, bool) {
 	}
 	switch ret.Results[0].(type) {
 	case *ssa.BinOp, *ssa.UnOp:
-		return &ssa.If{Cond: ret.Results[0]}, flip
+		cond, _ := substParams(sf, call.Call.Args, ret.Results[0], 0)
+		return &ssa.If{Cond: cond}, flip
 	}
 	return nil, false
 }
@@ -925,8 +926,19 @@ func ruleAccessTables(c *Ctx) {
 						return []Ev{{Kind: fmt.Sprintf("call%s%q", map[bool]string{true: "==", false: "!="}[eq], s)}}
 					}
 				}
-				// string(s[i+1:e]) == action
-				if prm, isP := b.Y.(*ssa.Parameter); isP && prm.Name() == "action" || isParam(b.X, "action") {
+				// string(s[i+1:e]) == action — action being the root's string parameter, possibly handed on
+				// to a list-scanning helper (while probing a helper for interest: any string parameter)
+				isAction := func(v ssa.Value) bool {
+					prm, isP := t.Resolve(fr, v).V.(*ssa.Parameter)
+					if !isP {
+						return false
+					}
+					if bt, isB := prm.Type().Underlying().(*types.Basic); !isB || bt.Kind() != types.String {
+						return false
+					}
+					return prm.Parent() == fn || fr.ID == -1
+				}
+				if isAction(b.Y) || isAction(b.X) {
 					if eq {
 						return []Ev{{Kind: "entry==action"}}
 					}
